@@ -38,6 +38,18 @@ def run_data(run: str, shape=(2, 5, 1), dims: int = 2) -> dict:
     key = (run, shape, dims)
     if key in _CACHE:
         return _CACHE[key]
+    if run == "A2":
+        # run A2 shares every history row with run A except the first one (two runs may share rows without one being a prefix of
+        # the other: e.g. a deterministic model and a sampler that proposes the same points again)
+        a = run_data("A", shape, dims)
+        g2 = _rng("A2")
+        d = {k: (v.copy() if isinstance(v, np.ndarray) else v) for k, v in a.items()}
+        d["params"][0] = g2.random(dims)
+        d["losses"][0] = 0.123456789
+        d["series"][0] = g2.standard_normal(shape)
+        d["seed"] = int(g2.integers(1, 2**31))
+        _CACHE[key] = d
+        return d
     g = _rng(run)
     params = g.random((MAXR, dims))
     losses = g.random(MAXR)
@@ -74,7 +86,7 @@ def loss_for(run: str, rows: int = 0):
     """(the weights depend on the state so that every component identifies the state it was written from)"""
     from black_it.loss_functions.minkowski import MinkowskiLoss
 
-    return MinkowskiLoss(p=2 if run == "A" else 3, coordinate_weights=np.array([(0.25 if run == "A" else 0.75) + rows / 1024]))
+    return MinkowskiLoss(p={"A": 2, "B": 3}.get(run, 4), coordinate_weights=np.array([{"A": 0.25, "B": 0.75}.get(run, 0.5) + rows / 1024]))
 
 
 def gen_state(run: str, rows: int) -> dict:
@@ -192,7 +204,7 @@ class Known:
                     self.tab[k].setdefault(c[k], (r, n))
             full = components(state_args(r, MAXR, backend, shape), backend)
             for i, x in enumerate(full["h5_rows"]):
-                self.h5tab.setdefault(x, r)
+                self.h5tab.setdefault(x, [r, i + 1])          # (a row shared by two runs is attributed to the first: RowId of Checkpoint.tla)
             for i, x in enumerate(full["csv_rows"]):
                 self.rowtab[x] = (r, i)
         self.zero = h(_b(np.zeros(shape)))
@@ -224,12 +236,17 @@ class Known:
                 else:
                     break
             out["csv"] = [run, k, k < len(c["csv_rows"]) or len(set(c["csv_lens"])) != 1]
-        out["h5"] = [self.h5tab.get(x, "zero" if x == self.zero else "?") for x in c["h5_rows"]]
+        out["h5"] = [self.h5tab.get(x, ["zero", 0] if x == self.zero else ["?", 0]) for x in c["h5_rows"]]
         return out
 
 
+def row_id(run: str, i: int) -> list:
+    return ["A", i] if run == "A2" and i > 1 else [run, i]
+
+
 def whole(run: str, rows: int) -> dict:
-    return {"params": [run, rows], "sched": [run, rows], "loss": [run, rows], "csv": [run, rows, False], "h5": [run] * rows}
+    return {"params": [run, rows], "sched": [run, rows], "loss": [run, rows], "csv": [run, rows, False],
+            "h5": [row_id(run, i) for i in range(1, rows + 1)]}
 
 
 # ------------------------------------------------------------------------------------------------
